@@ -161,7 +161,9 @@ class SyncedList(SyncedCollection, MutableSequence):
                     self._data[i] = self._from_base(data[i], parent=self)
 
                 if len(self._data) > len(data):
-                    self._data = self._data[: len(data)]
+                    # Truncate in place: buffered collections may share the
+                    # container.
+                    del self._data[len(data) :]
                 else:
                     new_data = data[len(self) :]
                     if not _validate:
@@ -243,7 +245,8 @@ class SyncedList(SyncedCollection, MutableSequence):
             self._data.remove(self._from_base(data=value, parent=self))
 
     def clear(self):  # noqa: D102
-        self._data = []
+        # Modify the container in place: buffered collections may share it.
+        self._data.clear()
         with self._thread_lock:
             self._save()
 
